@@ -309,7 +309,10 @@ def correspondence(ctx: Ctx):
                 yield {"line": line(op, *groups, dims), "impl": _trace_impl(e, m, hooks, h, w, z),
                        "nontrivial": _nontrivial(h, w, z) or not adm,
                        "bucket": f"trace/{e.family}/" + ("adm" if adm else "below-min")}
-    # ---- unrolled networks: denoiser calls seen by hooks vs the block schedule
+    # ---- unrolled networks: denoiser calls seen by hooks vs the block schedule READ FROM THE AST of each forward
+    # (Gen.C17.sched_* is the same table; Bridge/C17.lean equates it with the hand-written Shapes.Sched)
+    from translate.recipes.c17_sched import io_channels, scan_schedule
+
     for e in zoo():
         if e.kind not in ("recon", "recon3d") or e.finding:
             continue
@@ -317,7 +320,18 @@ def correspondence(ctx: Ctx):
         sch = Z.schedule(e, m)
         if sch is None:
             continue
-        mods, pre, body, iters = sch
+        mods = sch[0]
+        try:
+            calls = scan_schedule(m, mods)
+            chan = {}
+            blocks = []
+            for mod, dom, _perm in calls:
+                if id(mod) not in chan:
+                    chan[id(mod)] = io_channels(mod)
+                blocks += [dom, *chan[id(mod)]]
+        except Exception:  # noqa: BLE001 - unreadable forward: fall back to the hand-written schedule
+            _mods, pre, body, iters = sch
+            blocks = [v for b in list(pre) + list(body) * iters for v in b]
         for h, w in _size_sample(rng, e, ctx.budget(2, 8), lim=20):
             n, coils = rng.randint(1, 3), rng.randint(1, 5)
             z = rng.choice([2, 3]) if e.kind == "recon3d" else None
@@ -328,8 +342,7 @@ def correspondence(ctx: Ctx):
                 with Z.Recorder(mods) as rec:
                     Z.run_entry(e, m, inp)
                     return "ok " + " | ".join(ints(s) for c in rec.calls for s in c)
-            flat = lambda bl: [v for b in bl for v in b]  # noqa: E731
-            yield {"line": line("unrolled", [n, coils, iters], sp, flat(pre), flat(body)), "impl": impl,
+            yield {"line": line("unrolled", [n, coils, 0], sp, blocks, []), "impl": impl,
                    "nontrivial": True, "bucket": f"unrolled/{e.family}"}
 
 
